@@ -118,6 +118,13 @@ def hostile(entry, kind, n=1, fan=10):
         return base_doc(entry, f'<!DOCTYPE {root} [<!ENTITY unused "x">]>')
     if kind == "dtd-no-entity":
         return base_doc(entry, f"<!DOCTYPE {root} [<!ELEMENT {root} ANY><!-- no entity -->]>")
+    if kind == "attlist-defaults":
+        # an internal subset that declares no entity, only attribute defaults the document relies on (the disk's type and
+        # format in a .vbox, an attribute of the root elsewhere): such a document parses as usual, defaults included
+        leaf = {"ovf": "File", "vbox": "HardDisk", "pvs": "Hdd", "hdd": "Storage"}[entry]
+        doc = base_doc(entry, f'<!DOCTYPE {root} [<!ATTLIST {root} extra CDATA "dflt">'
+                              f'<!ATTLIST {leaf} type CDATA "Normal" format CDATA "VDI">]>')
+        return doc.replace(' format="VDI" type="Normal"', "")
     if kind == "malformed":
         return base_doc(entry)[:-9]
     if kind == "malformed-entity-ref":
@@ -280,7 +287,7 @@ class HostileSuite(Suite):
                 cases.append({"entry": entry, "kind": "internal-nested", "n": n, "fan": 2})
             for kind in ("internal-attr", "quadratic", "ext-general-file", "ext-general-http", "ext-general-public",
                          "ext-param-file", "ext-param-http", "param-internal", "ext-dtd-file", "ext-dtd-http",
-                         "ext-dtd-public", "attr-default", "unparsed", "declared-unused", "dtd-no-entity", "malformed",
+                         "ext-dtd-public", "attr-default", "unparsed", "declared-unused", "dtd-no-entity", "attlist-defaults", "malformed",
                          "malformed-entity-ref", "benign", "benign-charrefs", "benign-mentions"):
                 cases.append({"entry": entry, "kind": kind})
         for c in cases:
